@@ -45,7 +45,14 @@ def r6_preselection_history(run, tree):
     hf.check_hilbert_cpu_list_fold(run, tree)
 
 
-RULES = [r_shared_c15_r5, r1, r2, r3, r4, r6_preselection_history]
+def r7_conditions(run, tree):
+    run.rule("C15.R7", "the cell predicates applied by a load are those of THIS call: make_conditions evaluates the select it is given on the current buffers (folded for several select forms "
+             "in sequence on one reader; shared with C01/C04/C12)", "D7 folds of the readers' make_conditions", "", floor=3)
+    from . import layout_folds as lay
+    lay.check_leaf_rule(run, tree)
+
+
+RULES = [r_shared_c15_r5, r1, r2, r3, r4, r6_preselection_history, r7_conditions]
 
 
 def t_load_space(run, tree):
